@@ -216,6 +216,15 @@ def run_titrated(text, ff, ph, values, extra=()):
     return r
 
 
+_FFKEYS = {}
+
+
+def ff_keys(ff):
+    if ff not in _FFKEYS:
+        _FFKEYS[ff] = set(genffkeys.dump(ff.upper()))
+    return _FFKEYS[ff]
+
+
 def res_state(res, missed):
     info = G.residue_info(res)
     ffn = info["ffname"] or ""
@@ -337,7 +346,15 @@ def check_cell(ctx: Ctx, rng, ff):
     if ref.status == "ok":
         rm = {id(a) for a in (ref.missed or [])}
         s3 = res_state(ref.biomolecule.residues[ti], rm)
-        supported = s3["full"] and ((grp in TITR and s3["base"] == NONDEFAULT[grp]) or (grp == "N+" and s3["neutral_n"]) or (grp == "C-" and s3["neutral_c"]))
+        if grp in TITR:
+            # "supported" = the force-field DATA has the state's entry at this chain position (final map of the
+            # model, itself compared exhaustively with the real Forcefield.map by C01) and a residue pre-named in
+            # that state comes out fully parameterised. The NAME the reference run gives the state is deliberately
+            # not consulted: a defect in the state naming would corrupt it in the same way as in the run under test.
+            key = {"N": "N", "I": "", "C": "C"}[pos] + NONDEFAULT[grp]
+            supported = s3["full"] and key in ff_keys(ff)
+        else:
+            supported = s3["full"] and ((grp == "N+" and s3["neutral_n"]) or (grp == "C-" and s3["neutral_c"]))
     if supported:
         kind = "key-lost" if grp in ("N+", "C-") else "refused-supported"
         out.append(({**sig0, "kind": kind}, f"{rr}: pH {ph} vs pKa {pka} asks for the non-default state, the force field supports it here (reference run {('pre-named ' + NONDEFAULT[grp]) if grp in TITR else 'with neutral terminus'} is fully parameterised), but the group kept {st['ffname']}", replay))
